@@ -2,6 +2,7 @@ package main
 
 import (
 	"fmt"
+	"os"
 	"go/constant"
 	"go/types"
 	"strings"
@@ -10,6 +11,9 @@ import (
 type specErr struct{ msg string }
 
 func sfail(format string, args ...interface{}) {
+	if os.Getenv("GOVC_DEBUG") != "" {
+		panic(fmt.Sprintf(format, args...))
+	}
 	panic(specErr{fmt.Sprintf(format, args...)})
 }
 
@@ -516,6 +520,12 @@ func (se *SpecEnv) evalCall(x *ECall) Value {
 		m := se.eval(x.Args[0])
 		k := se.eval(x.Args[1])
 		return boolV(se.e.mapHas(se.s, m, k))
+	case "nonNilPtr":
+		v := se.eval(x.Args[0])
+		if v.Sort != "Val" {
+			sfail("nonNilPtr expects an interface value")
+		}
+		return boolV(and(not(eq(v.T, "VNil")), not(eq(app("valref", v.T), "0"))))
 	case "errIs":
 		a := se.eval(x.Args[0])
 		b := se.eval(x.Args[1])
